@@ -23,7 +23,7 @@ import (
 func init() {
 	ev.Register(&ev.Spec{
 		ID: "C19", Level: "exploration",
-		Rule:    "paged listings (next Offset = Offset of the last entry received) of real localfs temp directories, staticfs and composefs (flat, with localfs/staticfs mounts, nested WithDir, and a staticfs directory mounted in a composefs and listed through the mount), called on the File directly (entry counts) and through client+server (byte counts, several msize values; the listing fid has one of nine histories behind it: fresh, listed before, restarted after one page, page counts varying, a second fid listing the same directory in alternation, and for localfs the directory or its ancestor renamed before or in the middle of the listing); the multiset of names is compared with ground truth and every entry's QID/type with Walk+GetAttr. Also: a directory below a fresh composefs mount listed for the first time by 4 connections at once (the mount's QID mapper sees every file for the first time). Non-trivial: the listing needed >= 2 pages; distinct by (fs, dir size, name class, count class, route).",
+		Rule:    "paged listings (next Offset = Offset of the last entry received) of real localfs temp directories, staticfs and composefs (flat, with localfs/staticfs mounts, nested WithDir, a staticfs directory mounted in a composefs and listed through the mount, and a composefs whose localfs files and mounted directories were replaced - new inodes - after it was built), called on the File directly (entry counts) and through client+server (byte counts, several msize values; the listing fid has one of nine histories behind it: fresh, listed before, restarted after one page, page counts varying, a second fid listing the same directory in alternation, and for localfs the directory or its ancestor renamed before or in the middle of the listing); the multiset of names is compared with ground truth and every entry's QID/type with Walk+GetAttr. Also: a directory below a fresh composefs mount listed for the first time by 4 connections at once (the mount's QID mapper sees every file for the first time). Non-trivial: the listing needed >= 2 pages; distinct by (fs, dir size, name class, count class, route).",
 		Assume:  []string{"directory contents are not modified while listed (the directory itself or an ancestor may be renamed)", "real temp directories under /verif/.scratch"},
 		Shards:  shards(8, 16),
 		Timeout: timeout(5*time.Minute, 40*time.Minute),
@@ -165,6 +165,72 @@ func c19Compose(c *ev.Ctx, n, nl int, nested bool) (*c19fs, error) {
 	return &c19fs{kind: "composefs", names: names, att: fs, clean: clean}, nil
 }
 
+// c19Replaced: a composefs whose entries are real files and directories (a
+// localfs File added with WithFile, a localfs directory mounted with WithMount)
+// that are REPLACED after the composefs was built: the file by writing a new
+// one and renaming it over the old (a new inode), the directory by moving it
+// away and making it anew. The composed root is then listed: what it lists for a
+// name is what Walk + GetAttr report for that name now.
+func c19Replaced(c *ev.Ctx, n, nl int) (*c19fs, error) {
+	base := filepath.Join(c.Dir, "..", fmt.Sprintf("c19-%d-%d", os.Getpid(), c.Shard))
+	os.MkdirAll(base, 0755)
+	dir, err := os.MkdirTemp(base, "r")
+	if err != nil {
+		return nil, err
+	}
+	clean := func() { os.RemoveAll(dir) }
+	names := c19Names(n, nl)
+	lroot, err := localfs.Attacher(dir).Attach()
+	if err != nil {
+		clean()
+		return nil, err
+	}
+	var opts []composefs.Opt
+	var later []func()
+	for i, nm := range names {
+		real := fmt.Sprintf("e%d", i)
+		switch {
+		case i%3 == 0 && i < 30:
+			p := filepath.Join(dir, real)
+			if err := os.WriteFile(p, []byte("old"), 0644); err != nil {
+				clean()
+				return nil, err
+			}
+			_, f, err := lroot.Walk([]string{real})
+			if err != nil {
+				clean()
+				return nil, err
+			}
+			opts = append(opts, composefs.WithFile(nm, f))
+			later = append(later, func() {
+				os.WriteFile(p+".new", []byte("new content"), 0644)
+				os.Rename(p+".new", p)
+			})
+		case i%3 == 1 && i < 30:
+			p := filepath.Join(dir, real)
+			os.Mkdir(p, 0755)
+			os.WriteFile(filepath.Join(p, "inner"), []byte("x"), 0644)
+			opts = append(opts, composefs.WithMount(nm, localfs.Attacher(p)))
+			later = append(later, func() {
+				os.Rename(p, p+".old")
+				os.Mkdir(p, 0755)
+				os.WriteFile(filepath.Join(p, "inner2"), []byte("y"), 0644)
+			})
+		default:
+			opts = append(opts, composefs.WithFile(nm, staticfs.ReadOnlyFile("file "+fmt.Sprint(i))))
+		}
+	}
+	fs, err := composefs.New(opts...)
+	if err != nil {
+		clean()
+		return nil, err
+	}
+	for _, f := range later {
+		f()
+	}
+	return &c19fs{kind: "composefs-replaced", names: names, att: fs, clean: clean}, nil
+}
+
 // c19CompareAll makes c19Compare check every entry's QID instead of a sample.
 var c19CompareAll bool
 
@@ -276,7 +342,7 @@ func runC19(c *ev.Ctx) {
 			if n > 1000 && nl == 255 {
 				continue
 			}
-			for _, kind := range []string{"localfs", "staticfs", "composefs", "composefs-nested", "composefs-static-mount"} {
+			for _, kind := range []string{"localfs", "staticfs", "composefs", "composefs-nested", "composefs-static-mount", "composefs-replaced"} {
 				idx++
 				if !c.Mine(idx) {
 					continue
@@ -295,6 +361,8 @@ func runC19(c *ev.Ctx) {
 					f, err = c19Compose(c, n, nl, false)
 				case "composefs-static-mount":
 					f, err = c19StaticMount(n, nl)
+				case "composefs-replaced":
+					f, err = c19Replaced(c, n, nl)
 				default:
 					f, err = c19Compose(c, n, nl, true)
 				}
